@@ -219,7 +219,26 @@ pub fn run<'i>(p: &Prog, env: &[Prog], s: St<'i>, o: &Obs<'i>) -> ParseResult<St
             r
         }
         Soi => s.start_of_input(), Eoi => s.end_of_input(),
-        Peek => s.stack_peek(), Pop => s.stack_pop(), MPeek => s.stack_match_peek(), MPop => s.stack_match_pop(), Drop => s.stack_drop(),
+        Peek | Pop | MPeek | MPop | Drop => {
+            // the stack readers, read directly from their documentation: they match the text of the top entry (PEEK, POP) or of
+            // all entries from the top down (PEEK_ALL, POP_ALL) at the position, advance over exactly that text on success and do
+            // not move on failure; DROP never moves
+            let before = snap_of(&s.verif_snapshot());
+            let elems: Vec<String> = before.stack.split(' ').filter(|x| !x.is_empty()).map(|h| crate::unhexs(h).unwrap()).collect();
+            let (name, whole) = match p { Peek => ("stack_peek", false), Pop => ("stack_pop", false), MPeek => ("stack_match_peek", true), MPop => ("stack_match_pop", true), _ => ("stack_drop", false) };
+            let drop = matches!(p, Drop);
+            let r = match p { Peek => s.stack_peek(), Pop => s.stack_pop(), MPeek => s.stack_match_peek(), MPop => s.stack_match_pop(), _ => s.stack_drop() };
+            let text: Option<String> = if drop { if elems.is_empty() { None } else { Some(String::new()) } } else if whole { Some(elems.iter().rev().cloned().collect()) } else { elems.last().cloned() };
+            if let Some(t) = text {   // (PEEK / POP on an empty stack panic: not a contract of this list)
+                let want = o.input[before.pos..].starts_with(t.as_str());
+                check_prim(o, name, before.pos, want, t.len(), &r);
+                let ns = match &r { Result::Ok(ns) => ns, Err(ns) => ns };
+                let after = snap_of(&ns.verif_snapshot());
+                if matches!(p, Peek | MPeek) && after.stack != before.stack { o.fail(format!("{} changed the stack: {:?} -> {:?}", name, before.stack, after.stack)); }
+                if matches!(p, MPop) && r.is_ok() && !after.stack.trim().is_empty() { o.fail(format!("stack_match_pop succeeded and left entries on the stack: {:?}", after.stack)); }
+            }
+            r
+        }
         Slice(a, b, d) => {
             let before = snap_of(&s.verif_snapshot());
             let r = s.stack_match_peek_slice(*a, *b, if *d { MatchDir::BottomToTop } else { MatchDir::TopToBottom });
